@@ -54,6 +54,28 @@ where T: Types
 
     /// Shared with `FlushWorker`; stores the highest completed seq.
     done_seq: Arc<AtomicU64>,
+
+    /// The FlushWorker thread, joined when the WAL is dropped.
+    worker: Option<std::thread::JoinHandle<()>>,
+}
+
+/// Dropping the WAL closes the request channel and waits for the FlushWorker
+/// to process everything that is still queued (writes, syncs, chunk removals)
+/// and quit. Afterwards nothing touches the directory any more, so it can be
+/// opened again right away.
+impl<T> Drop for RaftLogWAL<T>
+where T: Types
+{
+    fn drop(&mut self) {
+        // Replace the sender by one of a closed channel: dropping the real
+        // sender disconnects the worker's receiver.
+        let (closed_tx, _) = std::sync::mpsc::sync_channel(1);
+        drop(std::mem::replace(&mut self.flush_tx, closed_tx));
+
+        if let Some(worker) = self.worker.take() {
+            let _ = worker.join();
+        }
+    }
 }
 
 impl<T> RaftLogWAL<T>
@@ -89,7 +111,7 @@ where T: Types
         let (flush_tx, rx) = std::sync::mpsc::sync_channel(1024);
         let worker = FlushWorker::new(rx, file_entry, cache, done_seq.clone());
 
-        worker.spawn();
+        let worker = worker.spawn();
 
         Self {
             config,
@@ -98,6 +120,7 @@ where T: Types
             flush_tx,
             sent_seq: 0,
             done_seq,
+            worker: Some(worker),
         }
     }
 
